@@ -158,13 +158,18 @@ def gen_case(rng):
     nv = rng.choice([2, 3, 4, 5, 6, 7, 8, 10])
     focus = (rng.choice(CTXS), rng.choice(['', '', 'v'])) if rng.random() < 0.75 else None
     views = []
+    need = set()
     for t in range(nv):
         v = gen_view(rng, t, routes, third, focus)
-        if views and rng.random() < 0.08:         # same slot and predicates again: an override
+        if views and rng.random() < 0.08:         # same slot and predicates again: an override (in a later commit)
             o = rng.choice(views)
-            v = dict(o, tag=t, perm=(rng.random() < 0.3))
+            v = dict(o, tag=t, perm=(rng.random() < 0.45))
+            need.add(t - 1)
         views.append(v)
-    case = {'routes': routes, 'third': third, 'views': views, 'requests': []}
+    commits = None                                # None: autocommit, one commit per add_view
+    if rng.random() < 0.5:                        # else: 1-3 explicit commits
+        commits = sorted(need | set(rng.sample(range(nv), rng.choice([0, 1, 2]))))
+    case = {'routes': routes, 'third': third, 'views': views, 'commits': commits, 'requests': []}
     for _ in range(rng.choice([12, 14, 16])):
         case['requests'].append(gen_request(rng, case))
     return case
@@ -177,9 +182,13 @@ def generate(rng, tier, n):
 
 def valid(case):
     try:
-        if not isinstance(case, dict) or set(case) != {'routes', 'third', 'views', 'requests'}:
+        if not isinstance(case, dict) or set(case) != {'routes', 'third', 'views', 'requests', 'commits'}:
             return False
         if not case['views'] or not case['requests']:
+            return False
+        if case['commits'] is not None and not (isinstance(case['commits'], list) and all(
+                isinstance(c, int) and not isinstance(c, bool) and 0 <= c < len(case['views']) for c in case['commits'])
+                and case['commits'] == sorted(set(case['commits']))):
             return False
         rn = [r['name'] for r in case['routes']]
         if len(set(rn)) != len(rn) or any(n not in ROUTES for n in rn):
@@ -239,11 +248,20 @@ def valid(case):
 
 
 def shrinks(case):
-    for key in ('requests', 'views'):
-        l = case[key]
-        if len(l) > 1:
-            for i in range(len(l)):
-                yield dict(case, **{key: l[:i] + l[i + 1:]})
+    l = case['requests']
+    if len(l) > 1:
+        for i in range(len(l)):
+            yield dict(case, requests=l[:i] + l[i + 1:])
+    l = case['views']
+    if len(l) > 1:
+        for i in range(len(l)):
+            cm = case['commits']
+            if cm is not None:
+                cm = sorted({c - 1 if c >= i else c for c in cm} - {-1})
+            yield dict(case, views=l[:i] + l[i + 1:], commits=cm)
+    if case['commits']:
+        for i in range(len(case['commits'])):
+            yield dict(case, commits=case['commits'][:i] + case['commits'][i + 1:])
     for i, v in enumerate(case['views']):
         for n in sorted(v['preds']):
             p = dict(v['preds'])
@@ -388,11 +406,17 @@ class World:
             setup('quick')
         P = _P
         self.case = case
-        self.made = {}
-        self.failed = set()
-        cfg = P['Configurator'](autocommit=True, root_factory=lambda request: P['root'])
-        cfg.set_security_policy(P['Policy']())
+        self.batched = case.get('commits') is not None
+        self._build(case, self.batched)
+        if self.conflict:                 # a batch held two views with one discriminator: replay one commit per add_view
+            self._build(case, False)
+
+    def _build(self, case, batched):
+        P = _P
+        self.made, self.failed, self.conflict = {}, set(), False
         world = self
+        cfg = P['Configurator'](autocommit=not batched, root_factory=lambda request: P['root'])
+        cfg.set_security_policy(P['Policy']())
 
         def recorder(view, info):
             t = getattr(info.original_view, 'c03_tag', None)
@@ -413,6 +437,8 @@ class World:
             resp.headers['X-Tag'] = 'nf-pme' if isinstance(request.exception, P['PredicateMismatch']) else 'nf-none'
             return resp
         cfg.add_notfound_view(notfound)
+        if batched:
+            cfg.commit()
         self.ids = {}
         self.iid(P['Interface'])
         self.iid(P['IRequest'])
@@ -421,9 +447,21 @@ class World:
             self.route_iface[r['name']] = cfg.registry.getUtility(P['IRouteRequest'], name=r['name'])
         self.cfg = cfg
         self.args = []
-        for v in case['views']:
+        from pyramid.exceptions import ConfigurationConflictError
+        for i, v in enumerate(case['views']):
             self.args.append(self._add_view(v))
-        self.app = cfg.make_wsgi_app()
+            if batched and i in case['commits']:
+                try:
+                    cfg.commit()
+                except Exception:       # conflict, or a predicate factory rejecting its value at commit time
+                    self.conflict = True
+                    return
+        try:
+            self.app = cfg.make_wsgi_app()
+        except Exception:
+            if not batched:
+                raise
+            self.conflict = True
 
     def iid(self, spec):
         return self.ids.setdefault(spec, len(self.ids))
@@ -617,7 +655,7 @@ def from_wire(case, raw):
         return {'model': ['MODEL-BAD', raw], 'spec': None}
     mades, per = raw
     model = [mades, [p[0] for p in per]]
-    return {'model': model, 'spec': [[sorted(p[1]), sorted(p[2]), sorted(p[3]), p[4]] for p in per]}
+    return {'model': model, 'spec': [[sorted(p[1]), sorted(p[2]), sorted(p[3]), sorted(p[4]), p[5]] for p in per]}
 
 
 # ------------------------------------------------------------------ implementation
@@ -665,6 +703,22 @@ def _collision(case, obs):
     return False
 
 
+def _stale_override(case, obs, bad):
+    """every deviating request ran an unsecured view that a later secured registration with the same slot
+    and predicates had overridden"""
+    vs = {v['tag']: (i, v) for i, v in enumerate(case['views'])}
+    for res, sp in bad:
+        if not (res and res[0] == 1 and res[1] in vs):
+            return False
+        i, old = vs[res[1]]
+        if old['perm'] or not any(
+                new['perm'] and (new['ctx'], new['name'], new['route'], new['preds'], new['nots'], new['accept'])
+                == (old['ctx'], old['name'], old['route'], old['preds'], old['nots'], old['accept'])
+                for new in case['views'][i + 1:]):
+            return False
+    return True
+
+
 def classify(case, obs, spec):
     if spec is None:
         return None
@@ -673,6 +727,8 @@ def classify(case, obs, spec):
         return None
     if all(_fits(res, sp[1]) for res, sp in bad) and any(v['accept'] is not None for v in case['views']):
         return 'C03-accept-first'
+    if all(_fits(res, sp[3]) for res, sp in bad) and _stale_override(case, obs, bad):
+        return 'C03-override-keeps-old-iface'
     if all(_fits(res, sp[2]) for res, sp in bad) and _collision(case, obs):
         return 'C03-phash-collision'
     return None
@@ -723,11 +779,17 @@ def kinds(case, obs):
         k.append('cfg:multiview')
     if any(r['ugv'] for r in case['routes']):
         k.append('cfg:use_global_views')
+    k.append('cfg:autocommit' if case['commits'] is None else 'cfg:commits%d' % (len(case['commits']) + 1))
+    vs = case['views']
+    for i in range(len(vs)):
+        for j in range(i + 1, len(vs)):
+            if all(vs[i][f] == vs[j][f] for f in ('ctx', 'name', 'route', 'preds', 'nots', 'accept')):
+                k.append('cfg:override-%s-to-%s' % ('secured' if vs[i]['perm'] else 'plain', 'secured' if vs[j]['perm'] else 'plain'))
     return k
 
 
 def describe(case):
-    return {'routes': case['routes'], 'views': case['views'], 'requests': case['requests'][:3]}
+    return {'routes': case['routes'], 'views': case['views'], 'commits': case['commits'], 'requests': case['requests'][:3]}
 
 
 # ------------------------------------------------------------------ violation search
